@@ -21,11 +21,19 @@ package commands
 //@   ensures ((fexists(objpath(p.Oid)) && hexsha(fdata(objpath(p.Oid))) == p.Oid) || (!fexists(objpath(p.Oid)) && p.Size == 0)) ==> corruptOids == old(corruptOids)
 //@   ensures !((fexists(objpath(p.Oid)) && hexsha(fdata(objpath(p.Oid))) == p.Oid) || (!fexists(objpath(p.Oid)) && p.Size == 0)) ==> len(corruptOids) == old(len(corruptOids)) + 1 && corruptOids[old(len(corruptOids))] == p.Oid
 
+// The ids collected by the scan come out of the pointer parser (assumed: 64
+// hex digits, so joining one to a directory stays inside that directory).
+//@ func doFsckObjects
+//@   assumed
+//@   props C13 C09
+//@   modifies all
+//@   ensures forall_int(i, result[i], 0 <= i && i < len(result) ==> isoid(result[i]))
+
 // Exit status and repair: success is reported only when nothing was found;
 // corrupt objects are moved (never removed), only without --dry-run, from
 // their object path to a path outside the object store.
 //@ func fsckCommand
-//@   props C13
+//@   props C13 C09
 //@   forbid os.Remove
 //@   forbid os.RemoveAll
 //@   at call commands.Print:1 assert len(corruptOids) == 0 && len(corruptPointers) == 0
